@@ -104,6 +104,7 @@ def project_facts(files):
     ambiguous_members = set()
     bare_genexp_targets = set()
     class_nested_scope_loads = set()
+    all_module_globals, all_class_attrs = set(), set()
     for path in files:
         if path.endswith(".py") and not path.endswith("__init__.py"):
             leafs.setdefault(path.split("/")[-1], []).append(path)
@@ -119,6 +120,12 @@ def project_facts(files):
         except SyntaxError:
             continue
         mod_globals = {t.id for st in tree.body for t in ast.walk(st) if isinstance(t, ast.Name) and isinstance(t.ctx, ast.Store)}
+        all_module_globals.update(t.id for st in tree.body if not isinstance(st, (ast.FunctionDef, ast.AsyncFunctionDef, ast.ClassDef))
+                                  for t in ast.walk(st) if isinstance(t, ast.Name) and isinstance(t.ctx, ast.Store))
+        for c_ in ast.walk(tree):
+            if isinstance(c_, ast.ClassDef):
+                all_class_attrs.update(t.id for st in c_.body if not isinstance(st, (ast.FunctionDef, ast.AsyncFunctionDef, ast.ClassDef))
+                                       for t in ast.walk(st) if isinstance(t, ast.Name) and isinstance(t.ctx, ast.Store))
         for n in ast.walk(tree):
             if isinstance(n, (ast.FunctionDef, ast.AsyncFunctionDef, ast.ClassDef)):
                 defined.add(n.name)
@@ -229,7 +236,8 @@ def project_facts(files):
             "init_params": init_params, "same_leaf": same_leaf, "has_prefixed_string": has_prefixed_string,
             "inherited_members": {m for c, ms in class_members.items() if c in base_names for m in ms},
             "ambiguous_members": ambiguous_members, "bare_genexp_targets": bare_genexp_targets,
-            "class_nested_scope_loads": class_nested_scope_loads}
+            "class_nested_scope_loads": class_nested_scope_loads,
+            "global_and_class_attr": all_module_globals & all_class_attrs}
 
 
 def stream(text):
@@ -359,6 +367,7 @@ def run_case(spec):
             import builtins
             label = None
             unique = bool(spec.get("unique"))
+            ukey = "unique-names" if spec.get("unique") == 1 else "unique-names+class-attribute-spelled-like-global"
             if unique:
                 # spellings are unique, so these classes are about the renamed binding itself
                 if tok and hasattr(builtins, old):
@@ -377,6 +386,8 @@ def run_case(spec):
                     label = "variable-of-a-generator-expression-that-is-the-sole-unparenthesised-argument-of-a-call"
                 elif tok and old in facts["class_nested_scope_loads"]:
                     label = "name-read-in-a-lambda-or-comprehension-directly-in-a-class-body"
+                elif tok and old in facts["global_and_class_attr"]:
+                    label = "module-global-and-class-attribute-share-the-spelling"
             elif tok and hasattr(builtins, old):
                 label = "builtin-name"
             elif tok and old.startswith("__") and old.endswith("__"):
@@ -409,7 +420,7 @@ def run_case(spec):
                 label = "default-argument-spelled-like-inner-binding"
             elif tok and old in facts["modlevel_comp"]:
                 label = "module-level-comprehension-variable-spelled-like-global"
-            feats = f"hostile:{label}" if label else (f"unique-names|role={role}" if unique else f"core|role={role}")
+            feats = f"hostile:{label}" if label else (f"{ukey}|role={role}" if unique else f"core|role={role}")
             out = behave.judge(case, request, res, "rename", feats, coarse=bool(label), post_check=post,
                                detail={"file": path, "offset": offset, "old": old, "role": role, "pseed": spec["pseed"],
                                        "source": case.files[path][:3000]})
